@@ -37,7 +37,13 @@ class Unit(object):
 
     def __init__(self, prop, name, target, params, requires=(), ensures=(), raises=(), loops=None, ghost=(),
                  init="", folds=None, list_kinds=None, exits=None, slice=None, defaults=None, note="",
-                 ensures_raise=(), uses_join=False, callees=None, prebind=None, defs=None):
+                 ensures_raise=(), uses_join=False, callees=None, prebind=None, defs=None,
+                 modifies=(), result=None, callee_units=None):
+        self.modifies = list(modifies)       # expressions over the parameters naming heap cells the unit may change
+        self.result = result                 # value spec of the result (for call-by-contract)
+        self.callee_units = callee_units or {}   # (class, method) -> Unit : call sites use that unit's contract
+        self.defaults = {}
+        self.global_callees = {}                 # bare-name callees (module functions): name -> VFun
         self.defs = defs or {}
         self.prebind = prebind or {}
         self.uses_join = uses_join
@@ -106,6 +112,8 @@ class Executor(EvalMixin, MethodsMixin, ExecMixin):
         self.known_chars = set()
         self.late_axioms = []
         self.method_contracts = dict(unit.callees)
+        for key, cu in unit.callee_units.items():
+            self.method_contracts[key] = self.callee_from_unit(cu)
         self.ghost_names = set()
         self.builtins = self.make_builtins()
         self.special_forms = self.make_special_forms()
@@ -131,6 +139,82 @@ class Executor(EvalMixin, MethodsMixin, ExecMixin):
                 st.assume(goal)
                 return
         EvalMixin.safety(self, st, exc, goal, node, note)
+
+    def callee_from_unit(self, cu):
+        """Call site semantics from the callee's CONTRACT only (never its body):
+        obligations for its requires, havoc of its modifies, result and ensures assumed."""
+        def factory(ref):
+            def call(ex, st, args, kw, node):
+                def ambient(spec):
+                    return isinstance(spec, tuple) and spec[0] == "obj" and spec[1].startswith("module:")
+                names = [p for p in cu.params if p != "self" and not ambient(cu.params[p])]
+                env2 = {}
+                for p_, sp_ in cu.params.items():
+                    if ambient(sp_):
+                        env2[p_] = self.make_value(sp_, st, p_)
+                if "self" in cu.params:
+                    env2["self"] = ref
+                for i, nm in enumerate(names):
+                    if i < len(args):
+                        env2[nm] = args[i]
+                    elif nm in kw:
+                        env2[nm] = kw[nm]
+                    elif nm in cu.defaults:
+                        env2[nm] = self.make_value(("const", cu.defaults[nm]), st, nm)
+                    else:
+                        raise OutOfSubset("call of %s lacks argument %s" % (cu.name, nm), node)
+                saved_env = st.env
+                st.env = dict(env2)
+                for dn, (dargs, dbody) in cu.defs.items():
+                    if dn not in self.special_forms:
+                        self.special_forms[dn] = self.make_macro(dn, dargs, parse_expr(dbody))
+                was = (self.in_contract, self.cur_line, self.ctag)
+                self.in_contract = True
+                self.cur_line = getattr(node, "lineno", 0) + self.line_offset
+                try:
+                    for i, r in enumerate(cu.requires):
+                        self.ctag = "%s.requires%d" % (cu.name, i)
+                        self.check_clause(st, "call-requires", parse_expr(r), node, assume_after=True)
+                    self.ctag = was[2]
+                    for nm, v in list(st.env.items()):
+                        if isinstance(v, VRef) and isinstance(st.heap[v.oid], (HList, HCList, HDict, HObj)):
+                            st.env["old$" + nm] = self.snapshot(v, st)
+                        else:
+                            st.env["old$" + nm] = v
+                    for m in cu.modifies:
+                        v = self.ev(parse_expr(m), st)
+                        if isinstance(v, VRef):
+                            st.heap[v.oid] = self.fresh_cell(st.heap[v.oid], st, cu.name + "_" + m.replace(".", "_"))
+                        else:
+                            raise ContractError("modifies %s of %s is not a heap cell" % (m, cu.name))
+                    res = self.make_value(cu.result, st, cu.name + "_result") if cu.result else VNone()
+                    st.env["result"] = res
+                    for cls in sorted(cu.raises):
+                        # the call may raise: handled by an enclosing try, or it ends the caller with that class
+                        self.in_contract = False
+                        if cls not in self.raises_ok:
+                            self.oblige(st, "raises-only", z3.BoolVal(False), node, "callee %s may raise %s" % (cu.name, cls))
+                        noraise = z3.Bool(fresh_name("noraise_" + cls))
+                        self.safety(st, cls, noraise, node, "callee may raise")
+                        self.in_contract = True
+                    for e in cu.ensures:
+                        self.assume_clause(st, parse_expr(e))
+                finally:
+                    self.in_contract, self.cur_line, self.ctag = was
+                    st.env = saved_env
+                return res
+            return VFun("%s[contract]" % cu.name, call)
+        return factory
+
+    def snapshot(self, v, st):
+        """deep-enough copy of a heap value for old(): lists, dicts; objects one level deep"""
+        cell = st.heap[v.oid]
+        if isinstance(cell, HObj):
+            f = {}
+            for k, x in cell.f.items():
+                f[k] = self.snapshot(x, st) if isinstance(x, VRef) and isinstance(st.heap[x.oid], (HList, HCList, HDict)) else x
+            return st.alloc(HObj(cell.cls, f))
+        return st.alloc(cell)
 
     def make_macro(self, name, argnames, body):
         def macro(node, st):
@@ -299,6 +383,10 @@ class Executor(EvalMixin, MethodsMixin, ExecMixin):
                 ek = spec[5:-1]
                 return st.alloc(HDict(ek, z3.Array(fresh_name(nm + "_keys"), StrS, BoolS),
                                       z3.Array(fresh_name(nm + "_vals"), StrS, SORTS[ek])))
+            if spec.startswith("ddict["):
+                ek = spec[6:-1]
+                return st.alloc(HDict(ek, z3.Array(fresh_name(nm + "_keys"), StrS, BoolS),
+                                      z3.Array(fresh_name(nm + "_vals"), StrS, SORTS[ek]), default=True))
             if spec == "file":
                 out = st.alloc(HList("str", z3.IntVal(0), z3.K(IntS, z3.StringVal(""))))
                 return st.alloc(HObj("file", {"out": out}))
@@ -332,8 +420,8 @@ class Executor(EvalMixin, MethodsMixin, ExecMixin):
         # default values of parameters not listed are not modelled: every read must be declared
         for nm in list(st.env):
             v = st.env[nm]
-            if isinstance(v, VRef) and isinstance(st.heap[v.oid], (HList, HCList)):
-                v = st.alloc(st.heap[v.oid])     # snapshot of the list contents at entry
+            if isinstance(v, VRef) and isinstance(st.heap[v.oid], (HList, HCList, HDict, HObj)):
+                v = self.snapshot(v, st)     # snapshot of the contents at entry
             st.env["old$" + nm] = v
         self.in_contract = True
         self.cur_line = self.fn.lineno
